@@ -116,6 +116,12 @@ pub fn corpus() -> Vec<(&'static str, Module, u32)> {
         ("corpus.huge_upvalues", modgen::huge_upvalues_module(&mut rng), 64),
         ("corpus.huge_locals", modgen::huge_locals_module(&mut rng), 64),
         ("corpus.globals17", main_only((0..17).map(|i| Card::set_global_var(format!("g{}", i), Card::scalar_int(i))).collect()), 64),
+        // O-C10-1: "brljcd" and "uqabx" have the same Handle::from_str hash -> one variable id for two names
+        ("corpus.global_name_collision", main_only(vec![
+            Card::set_global_var("brljcd", Card::scalar_int(1)),
+            Card::set_global_var("uqabx", Card::scalar_int(2)),
+            Card::read_var("brljcd"),
+        ]), 64),
         ("corpus.no_main", sub(vec![("foo", f0())], vec![]), 64),
         ("corpus.invalid_jump", main_only(vec![Card::call_function("nope", vec![])]), 64),
         ("corpus.recursion_limit", with_sub("a", sub(vec![("foo", f0())], vec![]), vec![("main", f0())]), 1),
@@ -199,6 +205,20 @@ fn show(name: &str, m: &Module) -> Option<cao_lang::prelude::CaoCompiledProgram>
 
 pub fn witness() {
     std::panic::set_hook(Box::new(|_| {}));
+    // observation O-C10-1: two global variable names with the same Handle::from_str hash (FNV-1a-32
+    // of "brljcd" and of "uqabx" is 2133916524) are one variable
+    let m = main_only(vec![
+        Card::set_global_var("brljcd", Card::scalar_int(1)),
+        Card::set_global_var("uqabx", Card::scalar_int(2)),
+    ]);
+    if let Some(p) = show("O-C10-1 main=[SetGlobalVar brljcd 1; SetGlobalVar uqabx 2]", &m) {
+        println!("    variables.ids: {} entries; variable_id(brljcd) = {:?}, variable_id(uqabx) = {:?}",
+                 p.variables.ids.len(), p.variable_id("brljcd"), p.variable_id("uqabx"));
+        let mut vm = cao_lang::vm::Vm::new(()).unwrap();
+        println!("    run -> {:?}", vm.run(&p).map_err(|e| e.payload));
+        println!("    brljcd = {:?}, uqabx = {:?}",
+                 vm.read_var_by_name("brljcd", &p.variables), vm.read_var_by_name("uqabx", &p.variables));
+    }
     // A-23
     let m = main_only(vec![Card::string_card("L".repeat(253))]);
     if let Some(p) = show("A-23 main=[StringLiteral(253 x 'L')]", &m) {
